@@ -6,6 +6,7 @@ import (
 	"go/constant"
 	"go/token"
 	"go/types"
+	"strconv"
 	"strings"
 )
 
@@ -330,58 +331,65 @@ func (c *Ctx) ruleStatusTablesInverse(rule string) {
 		c.Rep.undecided(rule, "parseToJob", "missing", "", "parseToJob not found")
 		return
 	}
-	info := parse.Info()
-	reader := map[string]string{} // string -> const value stored
-	defaultErr := false
-	found := false
+	// the reader's table is extracted by evaluating parseToJob with the stored status string bound to each name in turn
+	// (constant propagation through whatever switch, helper or table the decoder uses): on the paths that return no
+	// error the status stored into the new job must be the state whose name it is; an unknown name has no such path
+	statusField := ""
 	ast.Inspect(parse.Body, func(n ast.Node) bool {
-		sw, ok := n.(*ast.SwitchStmt)
-		if !ok || sw.Tag == nil {
-			return true
+		if sel, ok := n.(*ast.SelectorExpr); ok && sel.Sel.Name == "Status" {
+			if fk := selField(parse.Info(), sel); fk != "" && strings.Contains(fk, "jobView") {
+				statusField = fk
+			}
 		}
-		if b, ok := info.TypeOf(sw.Tag).Underlying().(*types.Basic); !ok || b.Info()&types.IsString == 0 {
-			return true
+		return true
+	})
+	if statusField == "" {
+		c.Rep.undecided(rule, parse.Short(), "no status switch", c.P.pos(parse.Body), "parseToJob does not read the stored status string (jobView.Status)")
+		return
+	}
+	evalName := func(name string) (stored map[string]bool, okPaths int) {
+		stored = map[string]bool{}
+		sr := &seqRule{c: c, rule: rule, trackField: R.FJobStatus}
+		sr.exprVal = func(fr *Frame, e ast.Expr) (Value, bool) {
+			if sel, ok := ast.Unparen(e).(*ast.SelectorExpr); ok && selField(fr.Fn.Info(), sel) == statusField {
+				return Value{Kind: VConst, S: strconv.Quote(name)}, true
+			}
+			return Value{}, false
 		}
-		found = true
-		for _, cc := range sw.Body.List {
-			clause := cc.(*ast.CaseClause)
-			if clause.List == nil {
-				for _, s := range clause.Body {
-					if ret, ok := s.(*ast.ReturnStmt); ok && len(ret.Results) == 2 && !isNilExpr(info, ret.Results[1]) {
-						defaultErr = true
-					}
-				}
+		sr.classify = func(fr *Frame, call *ast.CallExpr, ce *Callee, args []Value) *callEvent {
+			if ce.Key == "encoding/json.Unmarshal" {
+				return &callEvent{Atomic: true, Results: []Value{{Kind: VNil}}}
+			}
+			return nil
+		}
+		for _, sg := range sr.segments(parse) {
+			if sg.Kind != "path" || len(sg.Ret) != 2 || sg.Ret[1].Kind != VNil {
 				continue
 			}
-			stored := ""
-			for _, s := range clause.Body {
-				ast.Inspect(s, func(m ast.Node) bool {
-					if call, ok := m.(*ast.CallExpr); ok {
-						if fk, mm := atomicOp(info, call); fk == R.FJobStatus && mm == "Store" && len(call.Args) == 1 {
-							if tv := info.Types[call.Args[0]]; tv.Value != nil {
-								stored = tv.Value.ExactString()
-							}
-						}
-						if jobMethod(info, call, resolveCallee(info, call)) == "changeStatus" && len(call.Args) == 1 {
-							if tv := info.Types[call.Args[0]]; tv.Value != nil {
-								stored = tv.Value.ExactString()
-							}
-						}
-					}
-					return true
-				})
-			}
-			for _, ce := range clause.List {
-				if tv := info.Types[ce]; tv.Value != nil && tv.Value.Kind() == constant.String {
-					reader[constant.StringVal(tv.Value)] = stored
-				}
-			}
+			okPaths++
+			stored[sg.T] = true
 		}
-		return false
-	})
-	if !found {
-		c.Rep.undecided(rule, parse.Short(), "no status switch", c.P.pos(parse.Body), "parseToJob has no switch over the stored status string")
 		return
+	}
+	reader := map[string]string{}
+	for _, name := range []string{"Created", "Queued", "Processing", "Finished", "Closed"} {
+		st, n := evalName(name)
+		if n > 0 && len(st) == 1 {
+			for v := range st {
+				reader[name] = v
+			}
+		} else if n > 0 {
+			reader[name] = "?"
+		}
+	}
+	// anything Status() never produces — an unknown word, the empty string (a missing field), another spelling —
+	// must not decode
+	defaultErr := true
+	for _, bad := range []string{"no-such-status", "", "created", "CLOSED", " Queued"} {
+		if _, n := evalName(bad); n > 0 {
+			defaultErr = false
+			c.Rep.fail(rule, parse.Short(), fmt.Sprintf("status %q accepted", bad), c.P.pos(parse.Body), fmt.Sprintf("parseToJob decodes an entry whose status is %q, a string Status() never writes: a damaged or foreign entry is run as a job instead of being reported", bad))
+		}
 	}
 	for _, name := range []string{"Created", "Queued", "Processing", "Finished", "Closed"} {
 		val, ok := w.ByName[name]
@@ -400,7 +408,7 @@ func (c *Ctx) ruleStatusTablesInverse(rule string) {
 		}
 		seen[v] = s
 	}
-	c.Rep.check(defaultErr, rule, parse.Short(), "unknown status accepted", c.P.pos(parse.Body), "default branch returns an error", "parseToJob accepts an unknown status string instead of reporting the entry as undecodable")
+	c.Rep.check(defaultErr, rule, parse.Short(), "unknown status accepted", c.P.pos(parse.Body), "an unknown status string has no error-free path", "parseToJob accepts an unknown status string instead of reporting the entry as undecodable")
 	// decode error returns an error too
 	sr := &seqRule{c: c, rule: rule}
 	sr.classify = func(fr *Frame, call *ast.CallExpr, ce *Callee, args []Value) *callEvent {
